@@ -610,8 +610,8 @@ def rule_sort_keys(ctx, px):
         if not f.module.name.startswith("nunavut.lang"):
             continue
         for c in ast.walk(f.node):
-            if not (isinstance(c, ast.Call) and effects.dotted(c.func) == "sorted"):
-                continue
+            if not (isinstance(c, ast.Call) and (effects.dotted(c.func) == "sorted" or (isinstance(c.func, ast.Attribute) and c.func.attr == "sort"))):
+                continue    # sorted(x, key=..) and x.sort(key=..)
             kw = {k.arg: k.value for k in c.keywords}
             if "key" not in kw:
                 continue
